@@ -212,11 +212,11 @@ Definition gen_instopt_ops (sub:ops) : ops := mkops
   (fun v_term => (o_publish_axiom sub v_term))
   (fun v_term => (o_publish_claim sub v_term)).
 
-(* optimizing_interpreters.py:42  MemoizingInterpreter.pattern; sub_stateful = isinstance(self.sub_interpreter, StatefulInterpreter),
+(* optimizing_interpreters.py:44  MemoizingInterpreter.pattern; sub_stateful = isinstance(self.sub_interpreter, StatefulInterpreter),
    inS = membership in self._patterns_for_memoization, rt_mem = self.sub_interpreter.memory,
    super_pattern = super().pattern(p) *)
 Definition gen_memo_pattern (sub_stateful:bool) (inS:pat -> bool) (self_ops:ops) (v_p:pat) (super_pattern:M pat) : M pat :=
-  bind get_mem (fun rt_mem => if (sub_stateful && (tmem (TPat v_p) rt_mem)) then bind (o_load self_ops (TPat v_p)) (fun a46 => ret v_p) else let v_memoize := (inS v_p) in bind super_pattern (fun v_ret => bind (if v_memoize then (o_save self_ops (TPat v_p)) else ret tt) (fun _ => ret v_ret))).
+  bind get_mem (fun rt_mem => if (sub_stateful && (tmem (TPat v_p) rt_mem)) then bind (o_load self_ops (TPat v_p)) (fun a46 => ret v_p) else if (inS v_p) then bind super_pattern (fun v_ret => bind (o_save self_ops (TPat v_p)) (fun a48 => ret v_ret)) else super_pattern).
 
 Definition gen_is_stateful_BasicInterpreter : bool := false.
 Definition gen_is_stateful_StatefulInterpreter : bool := true.
@@ -252,7 +252,7 @@ Definition gen_dsl_prop3  : option thunk :=
 
 (* proof.py:155 *)
 Definition gen_dsl_modus_ponens (v_left:thunk) (v_right:thunk) : option thunk :=
-  match (th_conc v_left) with Imp v_p v_q => if (pat_eqb v_p (th_conc v_right)) then Some (mkthunk (fun v_interpreter => bind (gen_thunk_call v_left v_interpreter) (fun a53 => bind (gen_thunk_call v_right v_interpreter) (fun a54 => (o_modus_ponens (o_ops v_interpreter) a53 a54)))) v_q) else None | _ => None end.
+  match (th_conc v_left) with Imp v_p v_q => if (pat_eqb v_p (th_conc v_right)) then Some (mkthunk (fun v_interpreter => bind (gen_thunk_call v_left v_interpreter) (fun a54 => bind (gen_thunk_call v_right v_interpreter) (fun a55 => (o_modus_ponens (o_ops v_interpreter) a54 a55)))) v_q) else None | _ => None end.
 
 (* proof.py:160 *)
 Definition gen_dsl_exists_quantifier  : option thunk :=
@@ -260,37 +260,37 @@ Definition gen_dsl_exists_quantifier  : option thunk :=
 
 (* proof.py:167 *)
 Definition gen_dsl_exists_generalization (v_proved:thunk) (v_var:N) : option thunk :=
-  match (th_conc v_proved) with Imp v_l v_r => Some (mkthunk (fun v_interpreter => bind (gen_thunk_call v_proved v_interpreter) (fun a57 => (o_exists_generalization (o_ops v_interpreter) a57 v_var))) (Imp (Ex v_var v_l) v_r)) | _ => None end.
+  match (th_conc v_proved) with Imp v_l v_r => Some (mkthunk (fun v_interpreter => bind (gen_thunk_call v_proved v_interpreter) (fun a58 => (o_exists_generalization (o_ops v_interpreter) a58 v_var))) (Imp (Ex v_var v_l) v_r)) | _ => None end.
 
 (* proof.py:130 *)
 Definition gen_dsl_dynamic_inst (v_pf:thunk) (v_delta:delta) : option thunk :=
-  if (is_nil v_delta) then Some v_pf else Some (mkthunk (fun v_interpreter => bind (map_itemsM (fun v_idn v_p => (obj_pattern v_interpreter v_p)) v_delta) (fun v_delta' => bind (gen_thunk_call v_pf v_interpreter) (fun a60 => (o_instantiate (o_ops v_interpreter) a60 v_delta')))) (py_inst v_delta (th_conc v_pf))).
+  if (is_nil v_delta) then Some v_pf else Some (mkthunk (fun v_interpreter => bind (map_itemsM (fun v_idn v_p => (obj_pattern v_interpreter v_p)) v_delta) (fun v_delta' => bind (gen_thunk_call v_pf v_interpreter) (fun a61 => (o_instantiate (o_ops v_interpreter) a61 v_delta')))) (py_inst v_delta (th_conc v_pf))).
 
 (* proof.py:174 *)
 Definition gen_dsl_instantiate (v_proved:thunk) (v_delta:delta) : option thunk :=
-  Some (mkthunk (fun v_interpreter => bind (gen_thunk_call v_proved v_interpreter) (fun a62 => (o_instantiate (o_ops v_interpreter) a62 v_delta))) (py_inst v_delta (th_conc v_proved))).
+  Some (mkthunk (fun v_interpreter => bind (gen_thunk_call v_proved v_interpreter) (fun a63 => (o_instantiate (o_ops v_interpreter) a63 v_delta))) (py_inst v_delta (th_conc v_proved))).
 
 (* proof.py:179 *)
 Definition gen_dsl_load_axiom (axs:list pat) (v_axiom_term:pat) : option thunk :=
-  if (pmem v_axiom_term axs) then let v_axiom := v_axiom_term in Some (mkthunk (fun v_interpreter => bind (o_load (o_ops v_interpreter) (TProved v_axiom)) (fun a64 => ret v_axiom)) v_axiom_term) else None.
+  if (pmem v_axiom_term axs) then let v_axiom := v_axiom_term in Some (mkthunk (fun v_interpreter => bind (o_load (o_ops v_interpreter) (TProved v_axiom)) (fun a65 => ret v_axiom)) v_axiom_term) else None.
 
 (* proof.py:193 *)
 Definition gen_dsl_publish_proof (v_proved:thunk) : option thunk :=
-  Some (mkthunk (fun v_interpreter => bind (gen_thunk_call v_proved v_interpreter) (fun a65 => bind (o_publish_proof (o_ops v_interpreter) a65) (fun a66 => ret (th_conc v_proved)))) (th_conc v_proved)).
+  Some (mkthunk (fun v_interpreter => bind (gen_thunk_call v_proved v_interpreter) (fun a66 => bind (o_publish_proof (o_ops v_interpreter) a66) (fun a67 => ret (th_conc v_proved)))) (th_conc v_proved)).
 
 (* proof.py:200 *)
 Definition gen_execute_gamma_phase (subs:list (obj -> bool -> M unit)) (axs cls:list pat) (prs:list thunk) (v_interpreter:obj) (v_move_into_claim:bool) : M unit :=
-  bind (assert_phase Gamma) (fun _ => bind (iterM (fun v_submodule => (v_submodule v_interpreter false)) subs) (fun _ => bind (iterM (fun v_axiom => bind (obj_pattern v_interpreter v_axiom) (fun a68 => (o_publish_axiom (o_ops v_interpreter) a68))) axs) (fun _ => bind (if v_move_into_claim then into_claim_phase else ret tt) (fun _ => ret tt)))).
+  bind (assert_phase Gamma) (fun _ => bind (iterM (fun v_submodule => (v_submodule v_interpreter false)) subs) (fun _ => bind (iterM (fun v_axiom => bind (obj_pattern v_interpreter v_axiom) (fun a69 => (o_publish_axiom (o_ops v_interpreter) a69))) axs) (fun _ => bind (if v_move_into_claim then into_claim_phase else ret tt) (fun _ => ret tt)))).
 
 (* proof.py:210 *)
 Definition gen_execute_claims_phase (subs:list (obj -> bool -> M unit)) (axs cls:list pat) (prs:list thunk) (v_interpreter:obj) (v_move_into_proof:bool) : M unit :=
-  bind (assert_phase Claim) (fun _ => bind (iterM (fun v_claim => bind (obj_pattern v_interpreter v_claim) (fun a71 => (o_publish_claim (o_ops v_interpreter) a71))) (rev cls)) (fun _ => bind (if v_move_into_proof then into_proof_phase else ret tt) (fun _ => ret tt))).
+  bind (assert_phase Claim) (fun _ => bind (iterM (fun v_claim => bind (obj_pattern v_interpreter v_claim) (fun a72 => (o_publish_claim (o_ops v_interpreter) a72))) (rev cls)) (fun _ => bind (if v_move_into_proof then into_proof_phase else ret tt) (fun _ => ret tt))).
 
 (* proof.py:218 *)
 Definition gen_execute_proofs_phase (subs:list (obj -> bool -> M unit)) (axs cls:list pat) (prs:list thunk) (v_interpreter:obj) : M unit :=
-  bind (assert_phase Proof) (fun _ => bind (iterM (fun v_proof_expr => bind (lift_opt (gen_dsl_publish_proof v_proof_expr)) (fun a74 => bind (gen_thunk_call a74 v_interpreter) (fun a75 => ret tt))) prs) (fun _ => ret tt)).
+  bind (assert_phase Proof) (fun _ => bind (iterM (fun v_proof_expr => bind (lift_opt (gen_dsl_publish_proof v_proof_expr)) (fun a75 => bind (gen_thunk_call a75 v_interpreter) (fun a76 => ret tt))) prs) (fun _ => ret tt)).
 
 (* proof.py:224 *)
 Definition gen_execute_full (subs:list (obj -> bool -> M unit)) (axs cls:list pat) (prs:list thunk) (v_interpreter:obj) : M unit :=
-  bind (assert_phase Gamma) (fun _ => bind (gen_execute_gamma_phase subs axs cls prs v_interpreter true) (fun a76 => bind (gen_execute_claims_phase subs axs cls prs v_interpreter true) (fun a77 => (gen_execute_proofs_phase subs axs cls prs v_interpreter)))).
+  bind (assert_phase Gamma) (fun _ => bind (gen_execute_gamma_phase subs axs cls prs v_interpreter true) (fun a77 => bind (gen_execute_claims_phase subs axs cls prs v_interpreter true) (fun a78 => (gen_execute_proofs_phase subs axs cls prs v_interpreter)))).
 
